@@ -1,5 +1,6 @@
 import VncProofs.C19Sys
 import VncProofs.C05
+import VncSpec.PtrOrder
 /-!
 # C05 on every run of the whole client
 
@@ -21,14 +22,6 @@ def ptrOfWrite : Bytes → Option (Nat × Nat × Nat)
 
 def histPtrEvents (l : List Act) : List (Nat × Nat × Nat) := (actWrites l).filterMap ptrOfWrite
 
-/-- `q` may follow `p` -/
-def ptrFollows (p q : Nat × Nat × Nat) : Bool :=
-  (q.2.2 == p.2.2) ||
-  (q.1 == p.1 && q.2.1 == p.2.1 && (List.range 8).any fun b => q.2.2 == p.2.2 ^^^ (1 <<< b))
-
-def consistentFrom : Nat × Nat × Nat → List (Nat × Nat × Nat) → Bool
-  | _, [] => true
-  | p, q :: r => ptrFollows p q && consistentFrom q r
 
 /-! ## reading the wire back -/
 
